@@ -3,6 +3,7 @@ import ast
 
 from ..model import norm, walk_own
 from ..rules_codec import codec_peewee, codec_sqlite
+from ..rules_commit import check_no_rollback
 from ..rules_read import last_rule, order_rule
 from ..rules_store import forward_bucket, is_param_ref, scope_memory, scope_peewee, scope_sqlite
 
@@ -28,6 +29,8 @@ def check(prog, rep):
     # the loop merges what it reads back: the value read must be the value written (encode/decode agreement of the SQL backends)
     codec_sqlite(prog, rep)
     codec_peewee(prog, rep)
+    # an accepted heartbeat stays: nothing rolls the shared open transaction back
+    check_no_rollback(prog, rep)
     rep.rule("PASS", "Bucket.replace_last / Bucket.insert hand the caller's event to the backend unchanged")
     for m, callee, idx, p in (("replace_last", "replace_last", 1, "event"), ("insert", "insert_one", 1, "events")):
         fi = prog.func(f"Bucket.{m}")
